@@ -200,6 +200,12 @@ def options(draw, integrators=('Euler', 'RK4', 'implicit', 'implicitfast'), solv
       a['noslip_iterations'] = str(draw(st.integers(1, 3)))
     if draw(st.integers(0, 4)) == 0:
       a['tolerance'] = '0'
+    if 'PGS' in solvers and draw(st.integers(0, 5)) == 0:
+      # the combination in which a dual solver's starting iterate is visible in the result: cold start, unconverged PGS
+      a['solver'] = 'PGS'
+      fl['warmstart'] = 'disable'
+      a['iterations'] = str(draw(st.sampled_from([1, 2, 3, 5])))
+      a['tolerance'] = '0'
   if flags:
     for f in ('warmstart', 'filterparent', 'refsafe', 'eulerdamp', 'midphase', 'actuation', 'limit', 'frictionloss',
               'equality', 'spring', 'damper'):
